@@ -218,6 +218,26 @@ def check_item(item):
                     run_one(model, thetas_for("g", 2, "distinct"), grid, None, perms[:1],
                             f"{model} grid {grid}, times + {off}")
     samp, coal = samp0, coal0
+    # two genealogies with different sampling times as one batch [2, 2n-1]: each row must be the density of
+    # that row alone (a shape combination that raises is allowed)
+    off = 0.75
+    rows = [(samp0, coal0), ([t + off for t in samp0], [t + off for t in coal0])]
+    H = torch.tensor([r[0] + r[1] for r in rows])
+    grid1 = grid_points(times0, (0,))
+    for model, thetas, grid, growth in (("constant", thetas_for("c", 1, "distinct"), None, None),
+                                        ("exponential", thetas_for("c", 1, "distinct"), None, 0.3),
+                                        ("skyride", thetas_for("s", n - 1, "distinct"), None, None),
+                                        ("skygrid", thetas_for("g", 2, "distinct"), grid1, None),
+                                        ("linear", thetas_for("g", 2, "distinct"), grid1, None)):
+        try:
+            got = dist(model, thetas, grid, growth).log_prob(H).reshape(-1).tolist()
+        except Exception:
+            continue
+        nev += 1
+        refs = [reference(model, r[0], r[1], thetas, grid, growth) for r in rows]
+        if len(got) != 2 or any(not abs(g_ - r_) <= RTOL * max(1.0, abs(r_)) for g_, r_ in zip(got, refs)):
+            bad.append((f"{model}:batched_rows", f"batch of two genealogies with different sampling times "
+                                                 f"{H.tolist()}: log_prob {got} vs Kingman per row {refs}"))
     return bad, nev
 
 
@@ -283,6 +303,38 @@ def check_model_call(item):
                     break
         except Exception as e:
             bad.append((f"{model}:model_raises", f"{type(e).__name__}: {str(e)[:140]}"))
+    # models built from times / events (no tree): evaluated, then given the heights of two genealogies with
+    # different sampling times as one batch; the distribution the MODEL hands out is the one evaluated
+    off = 0.75
+    rows = [(samp, coal), ([t + off for t in samp], [t + off for t in coal])]
+    H = torch.tensor([r[0] + r[1] for r in rows])
+    for model, cs in specs.items():
+        try:
+            cs2 = {k: v for k, v in cs.items() if k != "tree_model"}
+            cs2["times"] = list(times)
+            cs2["events"] = [1 if e == "s" else 0 for e in inter]
+            dic = tt.load([cs2])
+            m = dic["coal"]
+            th = dic["theta"].tensor.tolist()
+            gr = grid if model in ("skygrid", "linear") else None
+            g0 = 0.3 if model == "exponential" else None
+            v = float(m())
+            ref = reference(model, samp, coal, th, gr, g0)
+            nev += 1
+            if not abs(v - ref) <= RTOL * max(1.0, abs(ref)):
+                bad.append((f"{model}:model_call", f"model from times/events: {v!r} vs Kingman {ref!r}"))
+                continue
+            try:
+                got = m.distribution().log_prob(H).reshape(-1).tolist()
+            except Exception:
+                continue  # a shape combination that raises is allowed
+            nev += 1
+            refs = [reference(model, r[0], r[1], th, gr, g0) for r in rows]
+            if len(got) != 2 or any(not abs(a_ - b_) <= RTOL * max(1.0, abs(b_)) for a_, b_ in zip(got, refs)):
+                bad.append((f"{model}:batched_rows", f"model.distribution().log_prob of two genealogies with different "
+                                                     f"sampling times {H.tolist()}: {got} vs Kingman per row {refs}"))
+        except Exception as e:
+            bad.append((f"{model}:model_raises", f"times/events route: {type(e).__name__}: {str(e)[:140]}"))
     return bad, nev
 
 
